@@ -55,6 +55,7 @@ func init() {
 	probes["O52"] = probeO52
 	probes["O53"] = probeO53
 	probes["O54"] = probeO54
+	probes["O55"] = probeO55
 	probes["O48"] = probeO48
 	probes["O49"] = probeO49
 	probes["O47"] = probeO47
@@ -778,5 +779,14 @@ func probeO54() (bool, string) {
 		var t struct{ L []int }
 		err := c.Unpack(&t, ucfg.VarExp)
 		return err == nil || !strings.Contains(err.Error(), "a.yml"), fmt.Sprint(err)
+	})
+}
+
+func probeO55() (bool, string) {
+	return guard(func() (bool, string) {
+		c, _ := ucfg.NewFrom(map[string]interface{}{"path": map[string]interface{}{"home": "/opt"}, "sel": "path.home", "v": "${${sel}}", "w": "${path.home}"}, ucfg.PathSep("."), ucfg.VarExp)
+		v, err := c.String("v", -1, ucfg.VarExp)
+		w, _ := c.String("w", -1, ucfg.VarExp)
+		return err != nil || v != w, fmt.Sprint(v, " ", err, " / ", w)
 	})
 }
